@@ -22,7 +22,7 @@ RULE = ("same generated domain as C01, with boundary requests (exactly the adver
         "JSON; non-trivial = some non-zero set-point AND (a non-zero exclusion bound in the request direction or "
         "a zero-headroom group or a multi-inverter group)")
 REQUIRED_BUCKETS = ["supply", "consume", "multi-inverter", "zero-headroom-group", "zero-headroom-with-min-power",
-                    "power-kind:excl-edge", "power-kind:incl-edge", "nonzero-exclusion", "exponent-0",
+                    "power-kind:excl-edge", "power-kind:incl-edge", "nonzero-exclusion", "exponent-0", "manager-level",
                     "setpoint-on-incl-bound", "setpoint-on-excl-bound"]
 REQUIRED_COUNTERS = ["contract_public", "inverter_setpoints_checked", "group_totals_checked", "enforced_bounds_observed"]
 ASSUMPTIONS = ["float tolerance 1e-6*max(1,|power|)", "domain as C01"]
@@ -35,7 +35,10 @@ def budget(tier: str) -> dict[str, Any]:
 
 
 def gen(rng: Any, tier: str, i: int) -> Any:
-    return batdata.gen_case(rng, mode=rng.choice(["plain", "plain", "deficit", "multi", "edge"]))
+    case = batdata.gen_case(rng, mode=rng.choice(["plain", "plain", "deficit", "multi", "edge"]))
+    if case is not None and rng.random() < c01.MANAGER_EVERY:
+        case["mgr"] = True
+    return case
 
 
 def check(case: dict[str, Any], rec: Any) -> None:
@@ -49,17 +52,43 @@ def check(case: dict[str, Any], rec: Any) -> None:
         _judge(dict(case, power=power, power_kind="enforced-band"), rec, band=True)
 
 
-def _judge(case: dict[str, Any], rec: Any, band: bool) -> None:
+def _manager_tier(case: dict[str, Any], rec: Any) -> None:
+    """The set_power calls the real BatteryManager issues for this data (its own exponent 1.0) obey the same bounds."""
+    from frequenz.sdk.microgrid._power_distributing.result import Success
+
+    import copy
+
+    distmon.install()
+    distmon._stage.clear()  # noqa: SLF001
+    rnd = c01.manager_round(case)
+    stages = copy.deepcopy(distmon._stage)  # noqa: SLF001  (stage record of the manager's own algorithm call)
+    if not isinstance(rnd.get("result"), Success):
+        return  # refusals are judged by C01 / C17
+    rec.bucket("manager-level")
+    rec.count("manager_set_power_calls", len(rnd["calls"]))
+    dist = {int(c["id"]): float(c["watts"]) for c in rnd["calls"]}
+    _judge(dict(case, exp=1.0), rec, band=True, dist=dist, stages=stages)
+
+
+def _judge(case: dict[str, Any], rec: Any, band: bool, dist: dict[int, float] | None = None,
+           stages: dict[str, Any] | None = None) -> None:
+    if case.get("mgr") and not band:
+        _manager_tier(case, rec)
     f = c01.features(case, rec) if not band else {"multi": False, "zero_headroom_with_min": False}
     if f["zero_headroom_with_min"]:
         rec.bucket("zero-headroom-with-min-power")
-    out = distmon.run(case)
+    if dist is not None:
+        out = {"distribution": dist, "remaining": 0.0, "stages": stages or {}}
+    else:
+        out = distmon.run(case)
     rec.count("contract_public", 1 if "public" in out["stages"] else 0)
     p = case["power"]
     up = p > 0
     t = tol(p)
+    via = "manager" if dist is not None else "algorithm"
     dist = out["distribution"]
     rep = distmon.stage_report(case, out)
+    rep["via"] = via
     any_excl = False
     any_nonzero = False
     for g, grp in enumerate(case["groups"]):
